@@ -325,6 +325,12 @@ Proof.
   unfold qmean_of. rewrite !map_length, (Permutation_length P), S. reflexivity.
 Qed.
 
+(* a reduced statistic written into an integer-typed series is no longer the stated statistic (listed finding integer-pop-scale-truncates-reduced-statistic) *)
+Lemma integer_series_truncates_the_mean : ~ (stored_in_integer_series (qmean_of [10; 5; 8; 8]) == qmean_of [10; 5; 8; 8])%Q /\ (stored_in_integer_series (qmean_of [10; 5; 8; 8]) == 7)%Q.
+Proof. split; vm_compute; [discriminate|reflexivity]. Qed.
+Lemma integer_series_keeps_whole_statistics z : (stored_in_integer_series (inject_Z z) == inject_Z z)%Q.
+Proof. unfold stored_in_integer_series. rewrite Qfloor_Z. reflexivity. Qed.
+
 (* ---- C02: a sufficient condition for independence that can be read off two components: disjoint footprints (Bernstein's conditions).
    The shared state is a family of named arrays; a component has a read set R and a write set W. *)
 Section Footprints.
